@@ -1,5 +1,5 @@
 (* C02 — no scaling activity while a cloud scale-up is inside its cool-down.  Theorems only. *)
-From Esc Require Import Examples proofs.ScanState.
+From Esc Require Import Examples proofs.ScanState proofs.ScanHistory.
 
 (* one scan, any pre-scan state: inside the cool-down no write of any kind is issued and the lock is left exactly
    as found; the lock's time changes only by being set to the instant of a scan in which an increase was accepted
@@ -25,6 +25,24 @@ Proof.
   intros l now cool t Ht H. rewrite lock_check_fst. unfold lock_since. rewrite Ht. apply Z.ltb_lt. exact H.
 Qed.
 Print Assumptions c02_holds.
+
+(* histories (proofs/ScanHistory.v: the controller's memory is threaded from scan to scan within one lifetime, every
+   other input of every scan is arbitrary): after a scan whose SetDesiredCapacity was accepted, every later scan whose
+   instant is less than the cool-down after it issues no write of any kind *)
+Theorem c02_histories : forall o st pre i mid,
+  0 <= o_cool o <= max_int64 ->
+  let st_i := state_after o st pre in
+  set_desired_ok (r_calls (scan_at o st_i i)) = true ->
+  (forall j, In j mid -> 0 <= si_now j - si_now i < o_cool o) ->
+  forall q, In q (run_hist o (next_state (scan_at o st_i i)) mid) -> writes (r_calls (snd q)) = [].
+Proof. exact c02_history. Qed.
+Print Assumptions c02_histories.
+
+(* and the group is acted on again: the first scan at or after lock time + cool-down finds it unlocked *)
+Theorem c02_release : forall o st i t, l_time (g_lock st) = Some t -> o_cool o <= sat64 (si_now i - t) ->
+  in_cooldown (ctx_at o st i) = false.
+Proof. exact c02_history_release. Qed.
+Print Assumptions c02_release.
 
 (* non-vacuity: the sample world 100 s after an accepted increase, driven below its minimum (min_nodes = 5, two
    untainted nodes) with force-tainted and grace-expired nodes present: no call at all; 700 s after: it acts *)
